@@ -7,7 +7,7 @@
 //! After EVERY operation, for EVERY live class: (1) the stored datum equals the join of make over all e-nodes of the
 //! class computed from the children's CURRENT data; (2) it equals the least fixpoint computed independently by plain
 //! iteration over `enodes` (for MinSize this is also compared with the extractor's best cost).
-//! Bound: 10 hand-written + 100 (deep: 2000) histories per analysis: a term of depth <= 3 over var/lam/app/add/mul/sub/g/
+//! Bound: 5 hand-written union histories + 100 (deep: 2000) generated histories per analysis: a term of depth <= 3 over var/lam/app/add/mul/sub/g/
 //! numbers with 3 slot names, all subterms inserted; then either <= 3 rounds of a fixed-seed subset of 12 rules that
 //! hold in Z/2^32 (ring laws, beta with let, rules that make slots redundant) or 6 unions of ring-law instances.
 //! also-with-features: checks
@@ -188,8 +188,38 @@ fn history<N: Ref>(seed: u64, rewriting: bool) -> Result<(), String> where N::Da
     Ok(())
 }
 
+/// hand-written union histories: (terms inserted in this order, unions between them)
+fn hand_written() -> Vec<(Vec<&'static str>, Vec<(usize, usize)>)> {
+    vec![
+        // the surviving class of a union gets a better datum AND inherits a symmetry in the same rebuild; it has parents
+        (vec!["(add (var $1) (var $2))", "(add (var $2) (var $1))", "(sub (g (var $1)) (g (var $2)))", "(g (sub (g (var $1)) (g (var $2))))", "(mul (sub (g (var $1)) (g (var $2))) 1)", "(g (g (sub (g (var $1)) (g (var $2)))))"], vec![(0, 1), (0, 2)]),
+        (vec!["(mul (var $1) (var $2))", "(mul (var $2) (var $1))", "(add (add (var $1) 0) (add (var $2) 0))", "(g (add (add (var $1) 0) (add (var $2) 0)))", "(sub (add (add (var $1) 0) (add (var $2) 0)) (var $1))", "(g (g (g (add (add (var $1) 0) (add (var $2) 0)))))"], vec![(0, 1), (0, 2)]),
+        // a constant reaches a class through a grand-child only
+        (vec!["(add (mul (var $1) 0) 2)", "(mul (var $1) 0)", "0", "(g (add (mul (var $1) 0) 2))", "(mul (g (add (mul (var $1) 0) 2)) 3)"], vec![(1, 2)]),
+        // a class merged away while an analysis-only update of one of its e-nodes is pending (several copies: hash order)
+        (vec!["(g (var $1))", "(add (var $1) 0)", "(mul (g (var $1)) (add (var $1) 0))", "(g (mul (g (var $1)) (add (var $1) 0)))", "(sub (g (var $2)) (add (var $2) 0))", "(g (sub (g (var $2)) (add (var $2) 0)))", "(add (g (var $3)) (add (var $3) 0))", "(var $1)"], vec![(1, 7), (0, 7)]),
+        // a cyclic class
+        (vec!["(g (add (var $1) 1))", "(add (var $1) 1)", "(mul (g (add (var $1) 1)) 2)"], vec![(0, 1)]),
+    ]
+}
+fn hand_history<N: Ref>(adds: &[&str], unions: &[(usize, usize)]) -> Result<(), String> where N::Data: std::fmt::Debug {
+    let mut eg: EGraph<AL, N> = EGraph::default();
+    let desc = format!("history add {:?}; union {:?}", adds, unions);
+    verif_case(format!("{}: {}", N::NAME, desc));
+    let hs: Vec<AppliedId> = adds.iter().map(|t| eg.add_expr(RecExpr::<AL>::parse(t).unwrap())).collect();
+    check_analysis(&eg, &format!("{} after the insertions", desc))?;
+    for (k, (a, b)) in unions.iter().enumerate() {
+        eg.union(&hs[*a], &hs[*b]);
+        check_analysis(&eg, &format!("{} after union #{}", desc, k))?;
+    }
+    Ok(())
+}
+
 fn run_for<N: Ref>(mut fails: &mut Vec<String>, deep: bool) where N::Data: std::fmt::Debug {
     let mut n = 0;
+    for (adds, unions) in hand_written() {
+        if let Err(e) = hand_history::<N>(&adds, &unions) { if n < 3 { n += 1; let (c, m) = e.split_once(' ').unwrap(); fails.push(format!("FAIL EGraph::update_analysis {} {}", c, m)); } }
+    }
     let seeds: u64 = if deep { verif_scale(2000) } else { 100 };
     for seed in 1..=seeds { for rewriting in [true, false] {
         if let Err(e) = history::<N>(seed, rewriting) { if n < 3 { n += 1; let (c, m) = e.split_once(' ').unwrap(); fails.push(format!("FAIL EGraph::update_analysis {} {}", c, m)); } }
